@@ -651,6 +651,34 @@ pub fn search_c02(seed: u64, ctx: &mut Ctx) -> Option<J> {
             return None;
         }
     }
+    // orders above the worker-thread count (AdjacencyList::degree_sequence
+    // chunks its rows by available_parallelism()): the degree / indegree /
+    // outdegree / semidegree sequences and every other query, every
+    // representation
+    for order in THREAD_ORDERS {
+        for shape in ["path", "cycle", "star", "random", "complete"] {
+            for repr in ALL_REPRS {
+                let mut g = match shape {
+                    "random" => random_g(&mut rng, order, &[]),
+                    "complete" => make_model("complete", order),
+                    k => structured(k, order, &[]),
+                };
+                reweigh(&mut rng, &mut g, repr);
+                let walks = random_walks(&mut rng, &g);
+                let c = C02 {
+                    repr: repr.to_string(),
+                    g,
+                    walks,
+                };
+                if let Some(f) = ctx.eval(&c) {
+                    return Some(f);
+                }
+            }
+        }
+        if ctx.expired() {
+            return None;
+        }
+    }
     // seeded random up to order 6, and non-contiguous AdjacencyMap digraphs
     for i in 0..6000 {
         for repr in ALL_REPRS {
@@ -698,8 +726,16 @@ pub fn repr_and_g(j: &J) -> Result<(String, G), String> {
     if !g.contiguous() && repr != "AdjacencyMap" {
         return Err("only AdjacencyMap can hold a non-contiguous vertex set".into());
     }
-    if repr.ends_with("<usize>") && g.arcs.values().any(|&w| w < 0) {
-        return Err("negative weight for a usize-weighted digraph".into());
+    if repr.ends_with("<usize>") {
+        // checked on the json text: the model stores usize weights above
+        // i64::MAX as their bit pattern
+        for a in j.req("arcs")?.arr()? {
+            if let Some(w) = a.arr()?.get(2) {
+                if w.i128()? < 0 {
+                    return Err("negative weight for a usize-weighted digraph".into());
+                }
+            }
+        }
     }
     Ok((repr, g))
 }
